@@ -78,6 +78,14 @@ def sliceFn : String → Except String (List Val → Except ErrKind (List (List 
       | .ok [x, y] => .ok [[x + y]]
       | .ok _ => .error .type
       | .error e => .error e
+  | "twice_small" => .ok fun row => match intsOf row with     -- the same value twice, or nothing
+      | .ok [x] => .ok (if x ≤ 1 then [[x], [x]] else [])
+      | .ok _ => .error .type
+      | .error e => .error e
+  | "repeat" => .ok fun row => match intsOf row with          -- x emitted y times (y ≤ 0: nothing)
+      | .ok [x, y] => .ok (List.replicate y.toNat [x])
+      | .ok _ => .error .type
+      | .error e => .error e
   | "bad_arity" => .ok fun row => match intsOf row with
       | .ok [x] => .ok [[x, x]]
       | .ok _ => .error .type
